@@ -13,6 +13,7 @@ import (
 	"strings"
 	"sync"
 	"testing"
+	"time"
 
 	"cuelabs.dev/go/oci/ociregistry"
 	"cuelabs.dev/go/oci/ociregistry/ocimem"
@@ -35,6 +36,8 @@ type Boundary struct {
 	// EmptyFirst: the wrong-offset writer is first given a Write of no bytes (whatever that returns, it
 	// sends no data and so cannot make the offset right)
 	EmptyFirst bool `json:"empty_first,omitempty"`
+	// CloseTwice: the handle is closed a second time before the upload is resumed, then asked its size and id
+	CloseTwice bool `json:"close_twice,omitempty"`
 	HowEnd     int  `json:"howend"` // how the wrong-offset writer is driven: 0 write+close, 1 write+commit, 2 write, closed only when the upload has reached that offset
 	// Interlope: between opening the wrong-offset writer and its first Write another handle is opened on
 	// the same session (1: at offset -1, as the server's upload-status request does; 2: at the right offset)
@@ -213,6 +216,38 @@ func run(s Script, v *vt.V) {
 		if err != nil {
 			fail(oneByteSig(0, written), "Close before resume at %d: %v", written, err)
 			return
+		}
+		if b.CloseTwice {
+			// an explicit Close followed by a deferred one is ordinary Go: the second Close and what
+			// is asked of the handle afterwards return
+			done := make(chan string, 1)
+			go func(w ociregistry.BlobWriter) {
+				if err := w.Close(); err != nil {
+					done <- fmt.Sprintf("second Close: %v", err)
+					return
+				}
+				if got := w.Size(); got != int64(written) {
+					done <- fmt.Sprintf("Size() = %d after two Closes, %d bytes were accepted", got, written)
+					return
+				}
+				if w.ID() != id {
+					done <- "ID() changed after two Closes"
+					return
+				}
+				done <- ""
+			}(w)
+			select {
+			case msg := <-done:
+				if msg != "" {
+					fail("closed-twice", "after %d bytes: %s", written, msg)
+					return
+				}
+			case <-time.After(10 * time.Second):
+				fail("writer-wedged-after-close", "after %d bytes the writer was closed twice; the second Close, Size or ID has not returned within 10 s", written)
+				w = closedWriter{} // (the deferred Close must not wait for the wedged handle)
+				return
+			}
+			v.Class("closed-twice")
 		}
 		if b.Wrong != 0 {
 			off := int64(written + b.Wrong)
@@ -449,6 +484,7 @@ func genScript(t *rapid.T) Script {
 	for i := 0; i < nw; i++ {
 		if rapid.IntRange(0, 2).Draw(t, "resumeHere") == 0 {
 			b := Boundary{After: i, Mode: rapid.IntRange(0, 1).Draw(t, "mode")}
+			b.CloseTwice = rapid.IntRange(0, 3).Draw(t, "closeTwice") == 0
 			if rapid.IntRange(0, 3).Draw(t, "wrongOffset") == 0 {
 				b.Wrong = rapid.SampledFrom([]int{1, 1, 2, 100, -1, -2}).Draw(t, "delta")
 				b.Junk = rapid.SampledFrom([]int{1, 2, 10, 9000}).Draw(t, "junk")
@@ -469,7 +505,7 @@ func genScript(t *rapid.T) Script {
 var prop = &vt.Prop[Script]{
 	ID:   "C04",
 	Name: "ChunkedUpload",
-	Rule: "content lengths {0,1,2,3, c-1,c,c+1, 2c-1,2c,2c+1, 3c+2 (c=8192); thorough also around 64 KiB} and small; partition into <=6 Write calls (sizes incl. 0, 1, c-1..c+1, larger than the content); chunk hint {-1,0,1,100,8191,8192,8193,20000}; any subset of write boundaries closed+resumed with explicit offset or -1 (-1 with exactly one byte received excluded as stated); optional probe at size+delta with junk data that must be refused with ErrRangeInvalid (416 on every hop) and leave the upload unaltered, also when the wrong-offset writer is given a Write of no bytes first, when a second handle is opened on the session (at -1 or at the right offset) between opening the wrong-offset writer and its first Write, and when the refused writer is closed only once the upload has reached the offset it aimed at; right/wrong commit digest; optionally the n-th data-carrying request of the caller's client fails before it is sent and the caller repeats the failed Write / Commit (nothing buffered may get lost); stacks {mem, 1 hop, 2 hops, unify(mem,mem) both policies, http over unify, unify over http, debug+http(NoSinglePost)+debug}; oracle = Size() after every step, commit descriptor, bytes read back from the top and from every member registry; non-trivial = >=1 resume, >=2 writes or length <= 2; distinct = whole script",
+	Rule: "content lengths {0,1,2,3, c-1,c,c+1, 2c-1,2c,2c+1, 3c+2 (c=8192); thorough also around 64 KiB} and small; partition into <=6 Write calls (sizes incl. 0, 1, c-1..c+1, larger than the content); chunk hint {-1,0,1,100,8191,8192,8193,20000}; any subset of write boundaries closed (a quarter of them closed twice, then asked Size and ID, which must return) +resumed with explicit offset or -1 (-1 with exactly one byte received excluded as stated); optional probe at size+delta with junk data that must be refused with ErrRangeInvalid (416 on every hop) and leave the upload unaltered, also when the wrong-offset writer is given a Write of no bytes first, when a second handle is opened on the session (at -1 or at the right offset) between opening the wrong-offset writer and its first Write, and when the refused writer is closed only once the upload has reached the offset it aimed at; right/wrong commit digest; optionally the n-th data-carrying request of the caller's client fails before it is sent and the caller repeats the failed Write / Commit (nothing buffered may get lost); stacks {mem, 1 hop, 2 hops, unify(mem,mem) both policies, http over unify, unify over http, debug+http(NoSinglePost)+debug}; oracle = Size() after every step, commit descriptor, bytes read back from the top and from every member registry; non-trivial = >=1 resume, >=2 writes or length <= 2; distinct = whole script",
 	Gen:  genScript,
 	Run:  run,
 }
@@ -480,3 +516,8 @@ func TestReplay(t *testing.T) {
 	vt.Register(prop)
 	vt.Replay(t)
 }
+
+// closedWriter stands in for a handle that must not be touched any more.
+type closedWriter struct{ ociregistry.BlobWriter }
+
+func (closedWriter) Close() error { return nil }
